@@ -42,6 +42,8 @@ import EsbuildModel.Impl.IsoHash
 import EsbuildModel.Impl.LineOffset
 import EsbuildModel.Impl.WatchLoop
 import EsbuildModel.Impl.MangleProps
+import EsbuildModel.Impl.JsxText
+import EsbuildModel.Impl.CjsWrapDriver
 
 open EsbuildModel
 
@@ -94,6 +96,8 @@ def dispatch (kernel : String) (args : List String) : String :=
   | "lineoffset" => LineOffset.driver args
   | "watchloop" => WatchLoop.driver args
   | "mangleprops" => MangleProps.driver args
+  | "jsxtext" => JsxText.driver args
+  | "cjswrap" => CjsWrap.driver args
   | _ => "bad-kernel"
 
 partial def loop (hin hout : IO.FS.Stream) : IO Unit := do
